@@ -1453,6 +1453,16 @@ class System:
     def processModule(self, mod: _ModuleT) -> None:
         assert mod.state is ProcessingState.UNPROCESSED
         assert mod in self.unprocessed_modules
+        # Like the import system, analyse a package's __init__ before any of its
+        # submodules: what the package declares (e.g. __docformat__) applies to
+        # them whichever module happens to be reached first.
+        parent = mod.parent
+        if isinstance(parent, Package) and parent.state is ProcessingState.UNPROCESSED \
+                and parent in self.unprocessed_modules:
+            self.processModule(parent)
+            if mod.state is not ProcessingState.UNPROCESSED or mod not in self.unprocessed_modules:
+                # The package itself imported the module.
+                return
         mod.state = ProcessingState.PROCESSING
         self.unprocessed_modules.remove(mod)
         if mod.source_path is None:
